@@ -29,6 +29,12 @@ type GenConfig struct {
 	NoAny bool
 	// Intersection: only constructs every format can express
 	Intersection bool
+	// NestedCollections: allow collections directly inside collections (array
+	// of arrays, map of maps, map of arrays, array of maps) and named
+	// collection definitions. The generated strict decoder / validation are
+	// known to mishandle several of these shapes, so checks draw them in a
+	// fraction of the models only and tag their signatures.
+	NestedCollections bool
 	// ExplicitMappings: render explicit OpenAPI discriminator mappings (cog
 	// keeps their values as "#/components/schemas/X" strings: known finding)
 	ExplicitMappings bool
@@ -41,6 +47,7 @@ func DefaultGenConfig(f Format) GenConfig {
 var defNamePool = []string{"Dashboard", "Panel", "Query", "Target", "Options", "Legend", "Threshold", "Variable", "TimeRange", "FieldConfig", "DataLink", "Node", "Tree", "Settings", "Series", "Annotation"}
 var variantNamePool = []string{"Circle", "Square", "Line", "Text"}
 var enumNamePool = []string{"Mode", "Level", "Status", "Unit"}
+var collNamePool = []string{"Tags", "Labels", "Matrix", "Index"}
 
 var fieldNamePool = []string{
 	"title", "id", "uid", "tags", "options", "refresh_rate", "timeFrom", "links", "mode", "value",
@@ -56,7 +63,12 @@ type mgen struct {
 	structs  []string // names of struct defs (for refs)
 	variants []string
 	enums    []string
-	disc     string
+	// named collection definitions: name -> kind ("array" | "map")
+	collections map[string]string
+	collNames   []string
+	disc        string
+	// sharedUnion: one union of scalars used by several fields of the model
+	sharedUnion *T
 	// cur: index (in structs) of the struct being built; required references
 	// only point to later structs, so required fields never form a cycle
 	cur int
@@ -94,6 +106,15 @@ func Draw(t *rapid.T, cfg GenConfig) *Model {
 	nEnums := rapid.IntRange(0, 2).Draw(t, "nenums")
 	g.enums = pickDistinct(t, enumNamePool, nEnums, "enumnames", taken)
 	g.m.Entry = g.structs[0]
+	g.collections = map[string]string{}
+	ncolls := 0
+	if cfg.NestedCollections {
+		ncolls = rapid.IntRange(0, 2).Draw(t, "ncolls")
+	}
+	for _, name := range pickDistinct(t, collNamePool, ncolls, "collnames", taken) {
+		g.collections[name] = rapid.SampledFrom([]string{"array", "map"}).Draw(t, "collkind")
+		g.collNames = append(g.collNames, name)
+	}
 
 	// enums first (so that defaults can pick members)
 	enumDefs := map[string]T{}
@@ -116,6 +137,22 @@ func Draw(t *rapid.T, cfg GenConfig) *Model {
 	}
 	for _, name := range g.enums {
 		g.m.Defs = append(g.m.Defs, Def{Name: name, Type: enumDefs[name]})
+	}
+	for _, name := range g.collNames {
+		var elem T
+		switch rapid.IntRange(0, 2).Draw(t, "collelem") {
+		case 0:
+			elem = T{Kind: KString}
+		case 1:
+			elem = g.scalarOfAnyKind()
+		default:
+			elem = T{Kind: KRef, Ref: rapid.SampledFrom(g.structs).Draw(t, "collref"), Nullable: g.f != OpenAPI && rapid.Bool().Draw(t, "collnullable")}
+		}
+		kind := KArray
+		if g.collections[name] == "map" {
+			kind = KMap
+		}
+		g.m.Defs = append(g.m.Defs, Def{Name: name, Type: T{Kind: kind, Elem: &elem}})
 	}
 	return g.m
 }
@@ -187,6 +224,9 @@ var classList = []string{
 	"map_scalar", "map_ref", "map_struct", "ref", "ref_recursive", "anon_struct", "union_scalars", "union_structs",
 	"datetime", "any", "nullable_scalar", "nullable_ref", "bytes", "default_string", "default_int", "default_bool",
 	"default_float", "default_list", "array_nested", "array_union_structs",
+	"ref_named_collection", "map_nested", "array_named_collection",
+	"union_scalars_shared", "union_scalars_shared_optional", "map_array_scalar", "map_array_struct", "array_map_struct",
+	"nullable_int_plain",
 }
 
 func (g *mgen) denseStruct() T {
@@ -213,8 +253,11 @@ func (g *mgen) denseStruct() T {
 			break
 		}
 		req := rapid.Bool().Draw(g.t, "required")
-		if c == "ref_recursive" {
+		if c == "ref_recursive" || c == "union_scalars_shared_optional" {
 			req = false
+		}
+		if c == "union_scalars_shared" {
+			req = true
 		}
 		st.Fields = append(st.Fields, Field{Name: names[ni], Type: ft, Required: req, Comment: maybeFieldComment(g.t, names[ni])})
 		ni++
@@ -282,14 +325,22 @@ func (g *mgen) bounded(kind string) T {
 
 // classType builds a type of the given construct class; ok=false when the
 // format cannot express it or the model lacks the definitions it needs.
+var nestedCollectionClasses = map[string]bool{
+	"array_nested": true, "map_nested": true, "map_array_scalar": true, "map_array_struct": true, "array_map_struct": true,
+	"ref_named_collection": true, "array_named_collection": true,
+}
+
 func (g *mgen) classType(c string, depth int) (T, bool) {
 	var t T
+	if nestedCollectionClasses[c] && !g.cfg.NestedCollections {
+		return T{}, false
+	}
 	// union-branch structs never refer back to the structs: CUE's own
 	// evaluator overflows its stack on a recursion that goes through a
 	// disjunction inside a list and a pattern constraint
 	if g.cur >= len(g.structs) {
 		switch c {
-		case "array_ref", "map_ref", "nullable_ref", "ref", "ref_recursive", "array_union_structs", "union_structs":
+		case "array_ref", "map_ref", "nullable_ref", "ref", "ref_recursive", "array_union_structs", "union_structs", "ref_named_collection", "array_named_collection":
 			return T{}, false
 		}
 	}
@@ -373,10 +424,48 @@ func (g *mgen) classType(c string, depth int) (T, bool) {
 		t = T{Kind: KRef, Ref: rapid.SampledFrom(g.structs[g.cur+1:]).Draw(g.t, "ref")}
 	case "ref_recursive":
 		t = T{Kind: KRef, Ref: g.structs[0]}
+	case "ref_named_collection":
+		if len(g.collNames) == 0 {
+			return T{}, false
+		}
+		t = T{Kind: KRef, Ref: rapid.SampledFrom(g.collNames).Draw(g.t, "collrefname")}
+	case "array_named_collection":
+		if len(g.collNames) == 0 {
+			return T{}, false
+		}
+		e := T{Kind: KRef, Ref: rapid.SampledFrom(g.collNames).Draw(g.t, "collrefname"), Nullable: g.f != OpenAPI && rapid.Bool().Draw(g.t, "collelemnull")}
+		t = T{Kind: KArray, Elem: &e}
+	case "map_nested":
+		inner := g.scalarOfAnyKind()
+		if rapid.IntRange(0, 2).Draw(g.t, "mapnestedref") == 0 && g.cur < len(g.structs) && g.f != OpenAPI {
+			inner = T{Kind: KRef, Ref: rapid.SampledFrom(g.structs).Draw(g.t, "mapnestedrefname"), Nullable: true}
+		}
+		e := T{Kind: KMap, Elem: &inner}
+		t = T{Kind: KMap, Elem: &e}
 	case "anon_struct":
 		t = g.structType(depth+1, "")
 	case "union_scalars":
 		t = g.unionScalars()
+	case "union_scalars_shared", "union_scalars_shared_optional":
+		if g.sharedUnion == nil {
+			u := g.unionScalars()
+			g.sharedUnion = &u
+		}
+		t = *g.sharedUnion
+	case "map_array_scalar":
+		inner := g.scalarOfAnyKind()
+		e := T{Kind: KArray, Elem: &inner}
+		t = T{Kind: KMap, Elem: &e}
+	case "map_array_struct":
+		inner := g.structType(depth+2, "")
+		e := T{Kind: KArray, Elem: &inner}
+		t = T{Kind: KMap, Elem: &e}
+	case "array_map_struct":
+		inner := g.structType(depth+2, "")
+		e := T{Kind: KMap, Elem: &inner}
+		t = T{Kind: KArray, Elem: &e}
+	case "nullable_int_plain":
+		t = T{Kind: KInt, Nullable: true}
 	case "union_structs":
 		if len(g.variants) < 2 || g.cur >= len(g.structs) {
 			return T{}, false
